@@ -11,7 +11,8 @@ RULE = ("solve_{pubo,qubo,puso,quso}_bruteforce on raw dicts and all ten model t
         "constant and empty models, validity predicates {all, parity, none, accept-exactly-one, cardinality}, "
         "all_solutions both ways; and the solve_bruteforce methods of the ten types (PCBO/PCSO with recorded "
         "constraints). Oracle: independent enumeration with the same predicate; argument snapshot. Non-trivial = "
-        ">= 2 variables and the valid set has >= 2 elements; distinct = digest of (function, type, terms, predicate)")
+        ">= 2 variables and the valid set has >= 2 elements; distinct = digest of (function, type, terms, predicate)"
+        ' Also: raw keys / explicit zero coefficients / huge offsets in dict inputs, predicates that read the model, omitted `valid`, typed coefficients, the documented answer (None, {}) / (None, [{}]) when nothing is valid (which the caller may write into), an infinite constant, second call after the caller edited the first answer.')
 TIERS = {"quick": {"shards": 8, "cases": 6000}, "thorough": {"shards": 16, "cases": 30000}}
 FLOOR_BASE = {"quick": 600, "thorough": 8000}    # case counts the floors below were calibrated for; the launcher scales them
 FUNCS = {("bool", False): "solve_pubo_bruteforce", ("bool", True): "solve_qubo_bruteforce",
